@@ -4,7 +4,10 @@ pub mod gen;
 pub mod langs;
 pub mod tsutil;
 
+pub mod c02;
+pub mod c03;
 pub mod c10;
+pub mod pat;
 pub mod c19;
 
 use engine::*;
